@@ -121,3 +121,15 @@ claim("C14",
       "delimiter run is odd and longer than any quote run (QS2). NOT proved: line breaking, idempotence, whole-AST round trip.",
       "pr::Expr::write's use of needs_parenthesis and the non-binary arms' option handling are read off the text, not verified; chumsky's pratt() "
       "semantics assumed; regex / HashSet / Formatter / String operations are shims by contract.")
+
+prop("C05", ["select_shape"],
+     not_covered="translate_wildcards / translate_exclude (hash-set algebra over relation instances), extract_atomic's limiting SELECT, agreement "
+                 "with the resolver's frame for every program, run-time expansion of `*`")
+claim("C05",
+      "PARTIAL. Proved on the real code: translate_select_item leaves a select item un-aliased only when the name SQL infers is EXACTLY the expected "
+      "name, aliases it with the expected name otherwise, and gives an unnamed column a generated name no column carries (SS2a-c); the decision "
+      "function of deduplicate_select_items drops an item only when it is an exact duplicate (same text, same quoting) of one kept before (DD1-3); "
+      "helper sort columns are appended to CTE projections only and never reorder or remove what was selected (SS3a-b). NOT proved: wildcard / "
+      "exclude translation, arity and order of the final projection for every program.",
+      "translate_cid, the computation of the inferred name, HashMap / HashSet / NameGenerator are shims by contract; the iteration of retain() and "
+      "the search of the Select in the CTE pipeline are dropped by the slices.")
